@@ -7,6 +7,7 @@ Writes seeded/<id>/{patch.diff,demo/...,meta.json} (meta.json extended with what
 import sys, os, json, subprocess, shutil, tempfile
 V = os.path.dirname(os.path.dirname(os.path.abspath(__file__)))
 sid, src = sys.argv[1], sys.argv[2]
+dest_name = sys.argv[3] if len(sys.argv) > 3 else sid
 ENV = dict(os.environ, GOFLAGS="-mod=mod", GOPROXY="off", GOSUMDB="off", GOTOOLCHAIN="local", TZ="UTC", LOG_LEVEL="fatal")
 meta = json.load(open(os.path.join(src, "_seed", "meta.json")))
 wt = tempfile.mkdtemp(prefix="seedverify.", dir="/dev/shm"); os.rmdir(wt)
@@ -51,7 +52,7 @@ try:
     out["baseline_tests_not_passing"] = bad
     ok = out["demo_without_change_exit"] == 0 and out["patch_applies"] and out["builds"] and out["demo_with_change_exit"] != 0 and not bad
     out["confirmed"] = ok
-    dst = os.path.join(V, "seeded", sid)
+    dst = os.path.join(V, "seeded", dest_name)
     if os.path.isdir(dst):
         shutil.rmtree(dst)
     os.makedirs(os.path.join(dst, "demo"))
